@@ -50,9 +50,9 @@ FAULT_PROBES = {"crash_inside_block_header": "crash_in_header", "crash_inside_ke
                 "live_torn_write": "live_torn_write"}
 PROBES = ["crash_in_header", "crash_in_key", "crash_in_value", "crash_on_boundary", "crash_before_first_byte",
           "torn_header_announces_beyond_eof", "recovery_append_done", "second_crash", "stale_handle_recovery",
-          "direct_raw_write_of_value", "molecule_library_recovery", "live_writer_killed", "live_survivor_session_after_kill", "live_torn_write"]
+          "direct_raw_write_of_value", "molecule_library_recovery", "same_handle_read_then_append", "live_writer_killed", "live_survivor_session_after_kill", "live_torn_write"]
 
-RECOVERIES = ["r", "a", "stale_r", "stale_a", "coll_r", "coll_w", "stale_coll_w", "a_crash2"]
+RECOVERIES = ["r", "a", "stale_r", "stale_a", "coll_r", "coll_w", "stale_coll_w", "a_crash2", "r_then_a", "coll_r_then_w"]
 
 
 def pre_checks(tier):
@@ -239,7 +239,7 @@ def _region(layout, size):
 
 _REGION_CLASS = {"hdr": "torn-block", "key": "torn-block", "val": "torn-block", "boundary": "block-boundary",
                  "before": "block-boundary", "other": "unexpected-layout"}
-_REC_CLASS = {"mlib_r": "molecule-library", "r": "reopen-r", "a": "reopen-a", "stale_r": "stale-handle", "stale_a": "stale-handle", "coll_r": "collection",
+_REC_CLASS = {"r_then_a": "same-handle-read-then-append", "coll_r_then_w": "same-handle-read-then-append", "mlib_r": "molecule-library", "r": "reopen-r", "a": "reopen-a", "stale_r": "stale-handle", "stale_a": "stale-handle", "coll_r": "collection",
               "coll_w": "collection", "stale_coll_w": "stale-handle", "a_crash2": "reopen-a"}
 
 
@@ -353,6 +353,68 @@ def _recover(res, kind, image, plan, exp, stale_blobs, sig_base, ctx, depth=0):
                 h2.close()
                 if kind == "a_crash2" and depth == 0 and (len(image) < 6000 or (len(image) + plan["sample_seed"]) % 7 == 0):
                     _second_crash(res, kern, image, plan, exp, visible, sig_base, ctx)
+        elif kind == "r_then_a":
+            # ONE handle object looks at the crashed file read-only first (and caches what it saw), then appends
+            h = UKVFile(path, mode="r")
+            ok = _check_view(res, sig_base, "reopen[r] (before appending through the same handle)", list(h.keys()), h.get, must, may, ctx)
+            h.close()
+            if not ok:
+                return
+            h.open("a")
+            visible = {k: h.get(k) for k in list(h.keys())}
+            h.put(*FRESH2)
+            h.put(*FRESH1)
+            h.close()
+            res.stats["probe:recovery_append_done"] += 1
+            res.stats["probe:same_handle_read_then_append"] += 1
+            exp_all = dict(visible)
+            exp_all[FRESH1[0]] = FRESH1[1]
+            exp_all[FRESH2[0]] = FRESH2[1]
+            for label, opener in (("same handle", lambda: (h.open("r"), h)[1]), ("fresh handle", lambda: UKVFile(path, mode="r"))):
+                h2 = opener()
+                got_keys = list(h2.keys())
+                if set(got_keys) != set(exp_all) or len(got_keys) != len(exp_all):
+                    res.violate("d-append-after-recovery-changed-listing", f"{sig_base}|d-listing",
+                                f"after read-then-append through one handle, {label} lists {sorted(map(short, got_keys))} expected {sorted(map(short, exp_all))}; {ctx}")
+                    h2.close()
+                    return
+                for k, v in exp_all.items():
+                    g = h2.get(k)
+                    if g != v:
+                        res.violate("d-append-after-recovery-wrong-value", f"{sig_base}|d-value",
+                                    f"after read-then-append through one handle, {label} get({short(k)})={short(g)} expected {short(v)}; {ctx}")
+                        h2.close()
+                        return
+                h2.close()
+        elif kind == "coll_r_then_w":
+            c = _mk_coll(path, False, plan["coll_bufsize"])
+            with c.reading():
+                ks = sorted(c.keys())
+                ok = _check_view(res, sig_base, "Collection.reading (before writing through the same handle)", [k.encode("latin-1") for k in ks],
+                                 lambda kb: c[kb.decode("latin-1")], must, may, ctx)
+                visible = {k: c[k] for k in ks} if ok else None
+            if not ok:
+                return
+            with c.writing():
+                c[FRESH2[0].decode()] = FRESH2[1]
+                c[FRESH1[0].decode()] = FRESH1[1]
+            res.stats["probe:recovery_append_done"] += 1
+            res.stats["probe:same_handle_read_then_append"] += 1
+            exp_all = dict(visible)
+            exp_all[FRESH1[0].decode()] = FRESH1[1]
+            exp_all[FRESH2[0].decode()] = FRESH2[1]
+            for label, cc in (("same handle", c), ("fresh handle", _mk_coll(path, True, -1))):
+                with cc.reading():
+                    if set(cc.keys()) != set(exp_all):
+                        res.violate("d-append-after-recovery-changed-listing", f"{sig_base}|d-listing",
+                                    f"after reading() then writing() through one Collection, {label} lists {sorted(cc.keys())} expected {sorted(exp_all)}; {ctx}")
+                        return
+                    for k, v in exp_all.items():
+                        g = cc[k]
+                        if g != v:
+                            res.violate("d-append-after-recovery-wrong-value", f"{sig_base}|d-value",
+                                        f"after reading() then writing() through one Collection, {label} get({k!r})={short(g)} expected {short(v)}; {ctx}")
+                            return
         elif kind == "mlib_r":
             import molli as ml
 
